@@ -54,18 +54,25 @@ def src(v, top=False):
     if k == "list":
         items, sep, br = v[1], v[2], v[3]
         if not items:
-            return "[]" if br else "()"
-        if sep == "slash":
+            if sep is None:
+                return "[]" if br else "()"
+            # an empty list with a separator of its own can only be built
+            e = "[]" if br else "()"
+            return f"list.join({e}, {e}, $separator: {sep})"
+        if sep == "slash" and len(items) >= 2:
             inner = "list.slash(" + ", ".join(src(i) for i in items) + ")"
-            assert not br and len(items) >= 2
+            assert not br
             return inner
         if len(items) == 1:
             if sep == "comma":
                 body = src(items[0]) + ","
-            else:
-                # a one-element unbracketed space list cannot be written as a literal
-                assert br and sep is None, v
+            elif sep is None:
+                # a one-element unbracketed list without separator is the element itself
+                assert br, v
                 body = src(items[0])
+            else:
+                # one element with the separator space / slash: only through append
+                return f"list.append({'[]' if br else '()'}, {src(items[0])}, $separator: {sep})"
         else:
             body = SEPTXT[sep].join(src(i) for i in items)
         return "[" + body + "]" if br else "(" + body + ")"
